@@ -21,6 +21,21 @@ GUARD_V0 = "node_count_on_this_level >= *PARALLELIZATION_CUTOFF"
 GUARD_V1 = "node_count_on_this_level > 0 && node_count_on_this_level >= *PARALLELIZATION_CUTOFF"
 
 
+# the same two forms up to spellings that cannot change the meaning: the names of the two locals, `/ 2` or `>> 1` for
+# halving the (unsigned) node count, the checked sum bound to a local or used in place, the two conjuncts of the guard in
+# either order, `> 0` / `!= 0` / `>= 1` for "not zero".  Still nothing is guessed: every alternative is listed.
+_HALF = r"self\.nodes\.len\(\) (?:/ 2|>> 1)"
+LEAF_V1_RE = re.compile(
+    r"^\{ let (?P<a>\w+) = " + _HALF + r"; (?:let (?P<b>\w+) = (?P=a)\.checked_add\(index\)\?; "
+    r"self\.nodes\.get\((?P=b)\)\.copied\(\)|self\.nodes\.get\((?P=a)\.checked_add\(index\)\?\)\.copied\(\)) \}$")
+LEAF_V0_RE = re.compile(
+    r"^\{ let (?P<a>\w+) = " + _HALF + r"; (?:self\.nodes\.get\((?P=a) \+ index\)\.copied\(\)|"
+    r"self\.nodes\.get\(index \+ (?P=a)\)\.copied\(\)) \}$")
+_NZ = r"(?:node_count_on_this_level > 0|node_count_on_this_level != 0|node_count_on_this_level >= 1|0 < node_count_on_this_level)"
+_GE = r"(?:node_count_on_this_level >= \*PARALLELIZATION_CUTOFF|\*PARALLELIZATION_CUTOFF <= node_count_on_this_level)"
+GUARD_V1_RE = re.compile(r"^(?:" + _NZ + r" && " + _GE + r"|" + _GE + r" && " + _NZ + r")$")
+
+
 def norm(s):
     s = re.sub(r"//[^\n]*", "", s)
     return re.sub(r"\s+", " ", s).strip()
@@ -59,9 +74,9 @@ def generate(report):
     try:
         _, _, body = find_fn(src, "leaf")
         b = norm(body)
-        if b == LEAF_V1:
+        if b == LEAF_V1 or LEAF_V1_RE.match(b):
             out += "Definition GEN_LEAF_CHECKED_ADD : bool := true.\n"
-        elif b == LEAF_V0:
+        elif b == LEAF_V0 or LEAF_V0_RE.match(b):
             out += "Definition GEN_LEAF_CHECKED_ADD : bool := false.\n"
         else:
             raise Untranslatable("body of MerkleTree::leaf is neither modelled form: %s" % b)
@@ -75,7 +90,7 @@ def generate(report):
         if len(ws) != 1:
             raise Untranslatable("expected exactly one while loop in CpuParallel::from_digests")
         g = norm(ws[0])
-        if g == GUARD_V1:
+        if g == GUARD_V1 or GUARD_V1_RE.match(g):
             out += "Definition GEN_CUTOFF_LOOP_GUARDS_ZERO : bool := true.\n"
         elif g == GUARD_V0:
             out += "Definition GEN_CUTOFF_LOOP_GUARDS_ZERO : bool := false.\n"
